@@ -571,10 +571,11 @@ def main(argv=None):
     if os.environ.get("VERIF_VERBOSE"):
         print(json.dumps(dict(total.classes), indent=1, sort_keys=True))
         print(json.dumps(total.per_layer, indent=1, sort_keys=True))
+    if total.harness_errors:
+        print(f"HARNESS-ERROR ({len(total.harness_errors)}):", total.harness_errors[0])
     if violations:
         return 1
     if total.harness_errors:
-        print("HARNESS-ERROR:", total.harness_errors[0])
         return 2
     if starved:
         print(f"HARNESS-ERROR: generator starved: distinct_nontrivial={nontriv} < {prop.min_nontrivial} or a layer below its minimum: "
